@@ -129,9 +129,9 @@ Qed.
 
 (* integer parameters are asked for with re = NULL (want_re = false): both
    reader variants (uf, zf) agree *)
-Theorem int64_roundtrip_gen uf zf base0 wim z :
+Theorem int64_roundtrip_gen uf zf pu base0 wim z :
   - two63 <= z < two63 ->
-  tok_to_num_gen uf zf base0 false wim (print_Z z) = Num (PInt z) None.
+  tok_to_num_gen uf zf pu base0 false wim (print_Z z) = Num (PInt z) None.
 Proof.
   intros Hz. unfold tok_to_num_gen, tok_part_gen. rewrite strto_int_print.
   assert (Ev : (if z <? 0 then - Z.abs z else Z.abs z) = z) by (destruct (Z.ltb_spec z 0); lia).
